@@ -95,6 +95,15 @@ def run(ctx):
       if not okf:
         continue
     else:
+      if acc_new.op in ('ite', 'cond'):
+        # a fast path next to the general one: every arm has to be a cover; the arm that is not a plain max is the one judged
+        def arms_of(t):
+          return arms_of(t.args[1]) + arms_of(t.args[2]) if t.op in ('ite', 'cond') else [t]
+        arms = arms_of(acc_new)
+        is_list = lambda a_: a_.op == 'list' and len(a_.args) == 1 and a_.args[0].op == 'star'
+        if all(is_list(a_) for a_ in arms):
+          bad = [a_ for a_ in arms if not is_ext_call(a_.args[0].args[0], 'jax.numpy.max', 'jax.numpy.amax')]
+          acc_new = (bad or arms)[0]
       if not (acc_new.op == 'list' and len(acc_new.args) == 1 and acc_new.args[0].op == 'star'):
         raise AnalysisError(f'sm3 accumulators are not one list over the tensor axes: {show(acc_new, maxdepth=3)[:160]}')
       red = acc_new.args[0].args[0]
@@ -218,7 +227,13 @@ def _is_expanded_list(ev, cmpr, lst, env):
   e = lst.args[0].args[0]
   ivs = [x for x in walk(e) if x.op == 'rangevar']
   if not ivs:
-    return False
+    # `for i, _ in enumerate(g.shape)`: the position in g.shape runs over range(g.ndim) as well
+    shp = spec_term(ev, 'g.shape', env)
+    pos = [x for x in walk(e) if x.op == 'index' and x.args[0] is shp]
+    if not pos:
+      return False
+    exp = spec_term(ev, 'jnp.reshape(acc[i], [1] * i + [g.shape[i]] + [1] * (len(g.shape) - i - 1))', dict(env, i=pos[0]))
+    return cmpr.same(e, exp)
   iv = ivs[0]
   exp = spec_term(ev, 'jnp.reshape(acc[i], [1] * i + [g.shape[i]] + [1] * (len(g.shape) - i - 1))', dict(env, i=iv))
   nd = spec_term(ev, 'g.ndim', env)
